@@ -30,4 +30,5 @@ props! {
     "C08" => c08,
     "C09" => c09,
     "C10" => c10,
+    "C20" => c20,
 }
